@@ -480,7 +480,10 @@ Definition obs_equiv (U KS : list N) (a b : obs) : bool :=
    existing node or edge changes nothing *)
 Definition direct_ok (U KS : list N) (prev : obs) (o : op) (cur : obs) : bool :=
   match o with
-  | RemoveNode k => negb (node_listed (k_base k) cur) && negb (touches_listed (k_base k) cur)
+  | RemoveNode k =>
+      negb (node_listed (k_base k) cur)
+      && (if node_listed (k_base k) prev then negb (touches_listed (k_base k) cur)
+          else obs_equiv U KS prev cur)       (* removing an absent node is a no-op *)
   | AddNode _ k =>
       node_listed_ver (k_base k) (k_ver k) cur
       && (if node_listed_ver (k_base k) (k_ver k) prev then obs_equiv U KS prev cur else true)
